@@ -63,6 +63,131 @@ func c17GetBodyCalls(fn *ssa.Function, base map[ssa.Value]bool) []ssa.CallInstru
 
 func c17SameReq(a, b ssa.Value) bool { return a == b || SameValue(a, b) }
 
+// ---------- facts about a request (usable across helper boundaries) ----------
+
+// c17NoBodyEdges: edges on which req.Body is known nil or http.NoBody (also
+// when the test is first stored in a boolean).
+func c17NoBodyEdges(fn *ssa.Function, req map[ssa.Value]bool) []Edge {
+	body := c17ReqFieldLoads(fn, "Body", req)
+	wrap := func(set map[ssa.Value]bool) map[ssa.Value]bool {
+		out := map[ssa.Value]bool{}
+		for v := range set {
+			out[v] = true
+		}
+		AllInstrs(fn, func(in ssa.Instruction) {
+			switch u := in.(type) {
+			case *ssa.ChangeInterface:
+				if set[u.X] {
+					out[u] = true
+				}
+			case *ssa.MakeInterface:
+				if set[u.X] {
+					out[u] = true
+				}
+			}
+		})
+		return out
+	}
+	noBody := c13ValuesWithRoot(fn, func(r ssa.Value) bool {
+		u, ok := r.(*ssa.UnOp)
+		if !ok || u.Op != token.MUL {
+			return false
+		}
+		g, ok := u.X.(*ssa.Global)
+		return ok && g.Name() == "NoBody" && g.Pkg.Pkg.Path() == c13PkgHTTP
+	})
+	bodyW, noBodyW := wrap(body), wrap(noBody)
+	return c13FactEdgesOfConds(fn, func(cond ssa.Value) (bool, bool) {
+		op, other, ok := c13CmpNorm(cond, bodyW)
+		if !ok || (op != token.EQL && op != token.NEQ) {
+			return false, false
+		}
+		if isNilConst(other) || noBodyW[other] {
+			return op == token.EQL, op == token.NEQ
+		}
+		return false, false
+	})
+}
+
+// c17BodyInstalls: stores of a req.GetBody() result into req.Body.
+func c17BodyInstalls(fn *ssa.Function, req map[ssa.Value]bool) []ssa.Instruction {
+	var out []ssa.Instruction
+	for _, gb := range c17GetBodyCalls(fn, req) {
+		fresh := c13AliasSet(ResultOf(gb, 0))
+		for _, s := range c13FieldStores(fn, c13PkgHTTP, "Request", "Body", func(b ssa.Value) bool { return req[b] }) {
+			if fresh[s.Val] {
+				out = append(out, s)
+			}
+		}
+	}
+	return out
+}
+
+// c17FreshFact: the request has no body, or a fresh GetBody() result was installed as its Body.
+var c17FreshFact = c13Fact{ID: "fresh-body",
+	Use: func(fn *ssa.Function, req map[ssa.Value]bool, _ map[ssa.Value]int64) ([]Edge, []ssa.Value) {
+		return c17NoBodyEdges(fn, req), nil
+	},
+	Instrs: c17BodyInstalls,
+}
+
+// c17GetBodyOKFact: the request has no body, or GetBody() succeeded.
+var c17GetBodyOKFact = c13Fact{ID: "getbody-ok", Use: func(fn *ssa.Function, req map[ssa.Value]bool, _ map[ssa.Value]int64) ([]Edge, []ssa.Value) {
+	edges := c17NoBodyEdges(fn, req)
+	for _, gb := range c17GetBodyCalls(fn, req) {
+		if e := ErrOf(gb); e != nil {
+			nilE, _, _ := NilTests(fn, Aliases(e))
+			edges = append(edges, nilE...)
+		}
+	}
+	return edges, nil
+}}
+
+// c17LengthFact: the body is not replayable (GetBody == nil) or req.ContentLength equals a descriptor's Size.
+var c17LengthFact = c13Fact{ID: "req-length", Use: func(fn *ssa.Function, req map[ssa.Value]bool, _ map[ssa.Value]int64) ([]Edge, []ssa.Value) {
+	gbNil, _, _ := NilTests(fn, c17ReqFieldLoads(fn, "GetBody", req))
+	eq, _ := c13EqualEdges(fn, c17ReqFieldLoads(fn, "ContentLength", req), c13FieldLoads(fn, c13PkgOCI, "Descriptor", "Size", nil))
+	return append(gbNil, eq...), nil
+}}
+
+// c17GetBodySetFact / c17BodySetFact: req.GetBody was assigned / req.Body was replaced by a GetBody() result.
+var c17GetBodySetFact = c13Fact{ID: "getbody-set", Instrs: func(fn *ssa.Function, req map[ssa.Value]bool) []ssa.Instruction {
+	var out []ssa.Instruction
+	for _, s := range c13FieldStores(fn, c13PkgHTTP, "Request", "GetBody", func(b ssa.Value) bool { return req[b] }) {
+		out = append(out, s)
+	}
+	return out
+}}
+var c17BodySetFact = c13Fact{ID: "body-set", Instrs: c17BodyInstalls}
+
+// c17GetBodyGuarded: in fn and the helpers it hands req to (depth), every call
+// of req.GetBody lies behind the edge GetBody != nil; n = number of such calls.
+func c17GetBodyGuarded(fn *ssa.Function, req map[ssa.Value]bool, depth int) (ok bool, n int) {
+	ok = true
+	_, gbNonNil, _ := NilTests(fn, c17ReqFieldLoads(fn, "GetBody", req))
+	for _, gb := range c17GetBodyCalls(fn, req) {
+		n++
+		if !MustPass(gb.(ssa.Instruction), newCut().Edges(gbNonNil...)) {
+			ok = false
+		}
+	}
+	if depth > 0 {
+		calls, idxs := c13RespParamCalls(fn, req)
+		for k, call := range calls {
+			h := StaticCallee(call)
+			if h == fn {
+				continue
+			}
+			o, m := c17GetBodyGuarded(h, Aliases(h.Params[idxs[k]]), depth-1)
+			n += m
+			if !o {
+				ok = false
+			}
+		}
+	}
+	return
+}
+
 // ---------- R1: auth.Client.Do and the rewind helper ----------
 
 func c17R1Auth(c *Ctx) {
@@ -156,76 +281,25 @@ func c17R1Auth(c *Ctx) {
 	// the helper
 	rn := FnName(RW)
 	req := Aliases(RW.Params[0])
-	body := c17ReqFieldLoads(RW, "Body", req)
-	bodyNil, _, _ := NilTests(RW, body)
-	// Body == http.NoBody
-	noBody := c13ValuesWithRoot(RW, func(r ssa.Value) bool {
-		u, ok := r.(*ssa.UnOp)
-		if !ok || u.Op != token.MUL {
-			return false
-		}
-		g, ok := u.X.(*ssa.Global)
-		return ok && g.Name() == "NoBody" && g.Pkg.Pkg.Path() == c13PkgHTTP
-	})
-	// comparisons of interface values: the body load may be wrapped (change interface)
-	bodyW := map[ssa.Value]bool{}
-	for v := range body {
-		bodyW[v] = true
-	}
-	AllInstrs(RW, func(in ssa.Instruction) {
-		if ci, ok := in.(*ssa.ChangeInterface); ok && body[ci.X] {
-			bodyW[ci] = true
-		}
-		if mi, ok := in.(*ssa.MakeInterface); ok && body[mi.X] {
-			bodyW[mi] = true
-		}
-	})
-	noBodyW := map[ssa.Value]bool{}
-	for v := range noBody {
-		noBodyW[v] = true
-	}
-	AllInstrs(RW, func(in ssa.Instruction) {
-		if mi, ok := in.(*ssa.MakeInterface); ok && noBody[mi.X] {
-			noBodyW[mi] = true
-		}
-		if ci, ok := in.(*ssa.ChangeInterface); ok && noBody[ci.X] {
-			noBodyW[ci] = true
-		}
-	})
-	eqNoBody, _ := c13EqualEdges(RW, bodyW, noBodyW)
-	gbs := c17GetBodyCalls(RW, req)
-	if len(gbs) != 1 {
-		c.LostAnchor(RH, fmt.Sprintf("%s: exactly one call of req.GetBody (found %d)", rn, len(gbs)))
-		return
-	}
-	gb := gbs[0]
-	fresh := c13AliasSet(ResultOf(gb, 0))
-	var installs []ssa.Instruction
-	for _, s := range c13FieldStores(RW, c13PkgHTTP, "Request", "Body", func(b ssa.Value) bool { return req[b] }) {
-		if fresh[s.Val] {
-			installs = append(installs, s)
-		}
-	}
-	cutOK := newCut().Edges(bodyNil...).Edges(eqNoBody...).Instr(installs...)
-	bad := c13SuccessEscapes(RW, RW.Blocks[0], 0, cutOK, nil)
-	c.Check(RH, rn+"|nil-only-if-no-body-or-fresh-body", RW.Pos(), bad == nil && len(installs) > 0,
-		ifelse(bad == nil && len(installs) > 0, "every nil return passes Body == nil, Body == http.NoBody, or the store of a fresh GetBody() result into req.Body",
+	cutFresh, _ := c13FactCut(RW, req, c17FreshFact, 2)
+	bad := c13SuccessEscapes(RW, RW.Blocks[0], 0, cutFresh, nil)
+	okFresh := bad == nil && len(cutFresh.instrs) > 0
+	c.Check(RH, rn+"|nil-only-if-no-body-or-fresh-body", RW.Pos(), okFresh,
+		ifelse(okFresh, "every nil return passes Body == nil, Body == http.NoBody, or the store of a fresh GetBody() result into req.Body",
 			"the rewind helper can report success without having installed a fresh body"))
-	_, gbNonNil, _ := NilTests(RW, c17ReqFieldLoads(RW, "GetBody", req))
-	okGuard := len(gbNonNil) > 0 && MustPass(gb.(ssa.Instruction), newCut().Edges(gbNonNil...))
-	c.Check(RH, rn+"|GetBody-called-only-if-set", gb.Pos(), okGuard,
-		ifelse(okGuard, "GetBody() is called only on the edge GetBody != nil (a one-shot body yields an error, not a nil-call panic)", "req.GetBody may be called while nil"))
-	res := ErrFlow(gb, ErrFlowOpts{})
-	okInst := res.OK
-	if e := ErrOf(gb); e != nil {
-		nilE, _, _ := NilTests(RW, Aliases(e))
-		if len(nilE) == 0 || c13SuccessEscapes(RW, RW.Blocks[0], 0, newCut().Edges(bodyNil...).Edges(eqNoBody...).Edges(nilE...), nil) != nil {
-			okInst = false
+	okGuard, nGB := c17GetBodyGuarded(RW, req, 2)
+	okGuard = okGuard && nGB > 0
+	c.Check(RH, rn+"|GetBody-called-only-if-set", RW.Pos(), okGuard,
+		ifelse(okGuard, "GetBody() is called only on the edge GetBody != nil (a one-shot body yields an error, not a nil-call panic)", "req.GetBody may be called while nil (or is never called)"))
+	cutGB, _ := c13FactCut(RW, req, c17GetBodyOKFact, 2)
+	okInst := c13SuccessEscapes(RW, RW.Blocks[0], 0, cutGB, nil) == nil
+	detail := ""
+	for _, gb := range c17GetBodyCalls(RW, req) {
+		if res := ErrFlow(gb, ErrFlowOpts{}); !res.OK {
+			okInst, detail = false, res.Detail
 		}
-	} else {
-		okInst = false
 	}
-	c.Check(RH, rn+"|GetBody-error-returned", gb.Pos(), okInst, ifelse(okInst, "a failing GetBody() makes the helper fail: nil is returned only over GetBody()'s nil-error edge", "the helper can report success although GetBody() failed: "+res.Detail))
+	c.Check(RH, rn+"|GetBody-error-returned", RW.Pos(), okInst, ifelse(okInst, "a failing GetBody() makes the helper fail: nil is returned only over GetBody()'s nil-error edge", "the helper can report success although GetBody() failed: "+detail))
 }
 
 // c17RewindingSender: every send in g is preceded, on every path from g's
@@ -300,48 +374,29 @@ func c17RoundTrip(c *Ctx) {
 	req := Aliases(reqArg)
 	resp, respErr := ResultOf(S, 0), ResultOf(S, 1)
 
-	// --- R1: body rewound on every path round-trip → round-trip
-	body := c17ReqFieldLoads(RT, "Body", req)
-	bodyNil, _, _ := NilTests(RT, body)
-	gbs := c17GetBodyCalls(RT, req)
-	var installs []ssa.Instruction
-	for _, gb := range gbs {
-		fresh := c13AliasSet(ResultOf(gb, 0))
-		for _, s := range c13FieldStores(RT, c13PkgHTTP, "Request", "Body", func(b ssa.Value) bool { return req[b] }) {
-			if fresh[s.Val] {
-				installs = append(installs, s)
-			}
-		}
-	}
-	ok := len(installs) > 0 && MustPassBetween(Si, Si, newCut().Edges(bodyNil...).Instr(installs...))
+	// --- R1: body rewound on every path round-trip → round-trip (in RoundTrip itself or through a helper it hands req to)
+	cutFresh, _ := c13FactCut(RT, req, c17FreshFact, 2)
+	ok := (len(cutFresh.instrs) > 0 || len(cutFresh.edges) > 0) && MustPassBetween(Si, Si, cutFresh)
 	c.Check(R1, rn+"|resend-has-fresh-body", S.Pos(), ok,
 		ifelse(ok, "every path from one round trip to the next passes req.Body == nil or the store of a GetBody() result into req.Body",
 			"the request can be sent again with the body the previous attempt consumed"))
-	okSucc := len(gbs) > 0
-	okGuard := len(gbs) > 0
-	_, gbNonNil, _ := NilTests(RT, c17ReqFieldLoads(RT, "GetBody", req))
-	for _, gb := range gbs {
-		e := ErrOf(gb)
-		if e == nil {
-			okSucc = false
-			continue
-		}
-		nilE, nonNilE, _ := NilTests(RT, Aliases(e))
-		if !MustPassBetween(Si, Si, newCut().Edges(bodyNil...).Edges(nilE...)) {
-			okSucc = false
-		}
-		for _, ne := range nonNilE { // after a failed GetBody no further round trip
-			if reach(ne.To, 0, Si, nil) {
-				okSucc = false
+	cutGB, _ := c13FactCut(RT, req, c17GetBodyOKFact, 2)
+	okSucc := MustPassBetween(Si, Si, cutGB)
+	for _, gb := range c17GetBodyCalls(RT, req) {
+		if e := ErrOf(gb); e != nil {
+			_, nonNilE, _ := NilTests(RT, Aliases(e))
+			for _, ne := range nonNilE { // after a failed GetBody no further round trip
+				if reach(ne.To, 0, Si, nil) {
+					okSucc = false
+				}
 			}
-		}
-		if len(nilE) == 0 {
+		} else {
 			okSucc = false
-		}
-		if !MustPass(gb.(ssa.Instruction), newCut().Edges(gbNonNil...)) {
-			okGuard = false
 		}
 	}
+	okGuard, nGB := c17GetBodyGuarded(RT, req, 2)
+	okGuard = okGuard && nGB > 0
+	okSucc = okSucc && nGB > 0
 	c.Check(R1, rn+"|rewind-failure-stops-retry", S.Pos(), okSucc, ifelse(okSucc, "the next round trip is reached only over GetBody()'s nil-error edge (or with no body); a failed GetBody() leads to no further round trip", "a failed GetBody() does not stop the retry (the request would go out with a nil or stale body)"))
 	c.Check(R1, rn+"|GetBody-called-only-if-set", S.Pos(), okGuard, ifelse(okGuard, "GetBody() is called only on the edge GetBody != nil", "req.GetBody may be called while nil (one-shot body): panic instead of returning the last response"))
 
@@ -869,13 +924,10 @@ func c17R4(c *Ctx) {
 			n++
 			fn := FnName(f)
 			req := Aliases(reqArg)
-			// (a) a replayable body of the wrong length is rejected before sending
+			// (a) a replayable body of the wrong length is rejected before sending (here or in a helper given the request)
 			_, gbNonNil, _ := NilTests(f, c17ReqFieldLoads(f, "GetBody", req))
-			gbNil, _, _ := NilTests(f, c17ReqFieldLoads(f, "GetBody", req))
-			cl := c17ReqFieldLoads(f, "ContentLength", req)
-			size := c13FieldLoads(f, c13PkgOCI, "Descriptor", "Size", nil)
-			eq, _ := c13EqualEdges(f, cl, size)
-			okLen := len(eq) > 0 && MustPass(site.(ssa.Instruction), newCut().Edges(gbNil...).Edges(eq...))
+			cutLen, _ := c13FactCut(f, req, c17LengthFact, 2)
+			okLen := len(cutLen.edges) > 0 && MustPass(site.(ssa.Instruction), cutLen)
 			c.Check(R4, fn+"|replayable-length-checked", site.Pos(), okLen,
 				ifelse(okLen, "the PUT is reached only with GetBody == nil or ContentLength == expected.Size", "a replayable body whose length differs from the descriptor is sent (and re-sent) instead of being rejected"))
 			// (b) auth client + one-shot body ⇒ buffered
@@ -897,28 +949,30 @@ func c17R4(c *Ctx) {
 			if !hasAssert {
 				continue // blob upload: the caller's reader is sent as is
 			}
-			var setGB, setBody []ssa.Instruction
-			for _, s := range c13FieldStores(f, c13PkgHTTP, "Request", "GetBody", func(b ssa.Value) bool { return req[b] }) {
-				setGB = append(setGB, s)
+			withFact := func(fact c13Fact) (bool, *cut) {
+				ct, _ := c13FactCut(f, req, fact, 2)
+				has := len(ct.instrs) > 0 || len(ct.edges) > 0
+				ct.Edges(okEdgesFalse...).Edges(gbNonNil...)
+				return has && MustPass(site.(ssa.Instruction), ct), ct
 			}
-			gbcalls := c17GetBodyCalls(f, req)
-			for _, s := range c13FieldStores(f, c13PkgHTTP, "Request", "Body", func(b ssa.Value) bool { return req[b] }) {
-				for _, g := range gbcalls {
-					if c13AliasSet(ResultOf(g, 0))[s.Val] {
-						setBody = append(setBody, s)
-					}
-				}
-			}
-			base := newCut().Edges(okEdgesFalse...).Edges(gbNonNil...)
-			okGB := len(setGB) > 0 && MustPass(site.(ssa.Instruction), newCut().Edges(okEdgesFalse...).Edges(gbNonNil...).Instr(setGB...))
-			okB := len(setBody) > 0 && MustPass(site.(ssa.Instruction), newCut().Edges(okEdgesFalse...).Edges(gbNonNil...).Instr(setBody...))
-			_ = base
+			okGB, _ := withFact(c17GetBodySetFact)
+			okB, _ := withFact(c17BodySetFact)
 			c.Check(R4, fn+"|one-shot-gets-GetBody", site.Pos(), okGB, ifelse(okGB, "through *auth.Client a request without GetBody is sent only after req.GetBody has been set", "a one-shot manifest body can be sent through the auth client without GetBody: the re-send after the 401 challenge fails or is empty"))
 			c.Check(R4, fn+"|one-shot-body-replaced", site.Pos(), okB, ifelse(okB, "req.Body is replaced by the first GetBody() result before sending", "the buffered content is not installed as the request body"))
-			// the buffering push's error is returned
-			for _, p := range Calls(f, func(n string) bool { return n == "(*~/internal/cas.Memory).Push" }) {
+			// the buffering push's error is returned (from the function, or from the helper and then from the function)
+			isBufPush := func(n string) bool { return n == "(*~/internal/cas.Memory).Push" }
+			for _, p := range Calls(f, isBufPush) {
 				r := ErrFlow(p, ErrFlowOpts{})
 				c.Check(R4, fn+"|buffering-error-returned", p.Pos(), r.OK, r.How+r.Detail)
+			}
+			hcalls, _ := c13RespParamCalls(f, req)
+			for _, hc := range hcalls {
+				h := StaticCallee(hc)
+				for _, p := range Calls(h, isBufPush) {
+					r := ErrFlow(p, ErrFlowOpts{})
+					r2 := ErrFlow(hc, ErrFlowOpts{})
+					c.Check(R4, fn+"|buffering-error-returned", p.Pos(), r.OK && r2.OK, r.How+r.Detail+r2.Detail)
+				}
 			}
 		}
 	}
